@@ -13,11 +13,17 @@ Notation ev := (label V * out V)%type.
 (* ---- event classifiers ---------------------------------------------------------------------- *)
 Definition is_succ_start (e : ev) : bool :=
   match e with (Ext Start, ONone) => true | _ => false end.
+Definition is_ctor_ok (e : ev) : bool :=
+  match e with (Ext Ctor, ONone) => true | _ => false end.
+Definition is_ctor_fail (e : ev) : bool :=
+  match e with (Ext Ctor, OInitError) => true | _ => false end.
 Definition l_start (l : lab) : bool := match l with Ext Start => true | _ => false end.
 Definition l_stop (l : lab) : bool := match l with Ext Stop => true | _ => false end.
 Definition l_join (l : lab) : bool := match l with Ext Join => true | _ => false end.
 Definition l_begin (l : lab) : bool := match l with Int TBeginRun => true | _ => false end.
 Definition l_exit (l : lab) : bool := match l with Int TExit => true | _ => false end.
+Definition l_initfail (l : lab) : bool := match l with Int TInitFail => true | _ => false end.
+Definition l_initdone (l : lab) : bool := match l with Int TInitDone => true | _ => false end.
 Definition l_finexc (l : lab) : bool := match l with Int TFinishExc => true | _ => false end.
 Definition l_finnorm (l : lab) : bool :=
   match l with Int TFinishOk | Int TFinishStopExc => true | _ => false end.
@@ -36,17 +42,37 @@ Definition st_started (x : tstate) : bool :=
 Definition st_exc (x : tstate) : bool := match x with EXCEPTION_WHILE_RUNNING_TASK => true | _ => false end.
 Definition st_norm (x : tstate) : bool := match x with TASK_COMPLETED_NORMALLY => true | _ => false end.
 Definition st_stopped (x : tstate) : bool := match x with TASK_STOPPED_BEFORE_START => true | _ => false end.
+Definition st_ready (x : tstate) : bool := match x with READY_TO_RUN => true | _ => false end.
+Definition st_excinit (x : tstate) : bool :=
+  match x with EXCEPTION_WHILE_INSTANTIATING_TASK => true | _ => false end.
+Definition st_preinit (x : tstate) : bool :=
+  match x with INITIAL | EXCEPTION_WHILE_INSTANTIATING_TASK => true | _ => false end.
+Definition c_ok (c : cphase) : bool := match c with C_ok => true | _ => false end.
+Definition c_failed (c : cphase) : bool := match c with C_failed => true | _ => false end.
 
-Definition shape_ok (s : st V) : bool :=
-  match pc s, state s, run_count s with
-  | TP_init, INITIAL, 0
-  | TP_wait, READY_TO_RUN, 0 | TP_wait, RUNNING, 0 | TP_wait, TASK_STOPPED_BEFORE_START, 0
-  | TP_run, RUNNING, 1
-  | TP_fin, TASK_COMPLETED_NORMALLY, 1 | TP_fin, EXCEPTION_WHILE_RUNNING_TASK, 1
-  | TP_done, TASK_STOPPED_BEFORE_START, 0
-  | TP_done, TASK_COMPLETED_NORMALLY, 1 | TP_done, EXCEPTION_WHILE_RUNNING_TASK, 1 => true
-  | _, _, _ => false
+(* EXACTLY the reachable combinations of (constructor phase, thread position, state, run() count);
+   [shapes_all_reachable] below shows that each of the 14 is reached *)
+Definition shape := (cphase * tpc * tstate * nat)%type.
+Definition shape_of (s : st V) : shape := (ctor s, pc s, state s, run_count s).
+Definition shape_okb (sh : shape) : bool :=
+  match sh with
+  | (C_running, TP_init, INITIAL, 0)
+  | (C_running, TP_wait, READY_TO_RUN, 0)
+  | (C_running, TP_fin, EXCEPTION_WHILE_INSTANTIATING_TASK, 0)
+  | (C_running, TP_done, EXCEPTION_WHILE_INSTANTIATING_TASK, 0)
+  | (C_failed, TP_done, EXCEPTION_WHILE_INSTANTIATING_TASK, 0)
+  | (C_ok, TP_wait, READY_TO_RUN, 0)
+  | (C_ok, TP_wait, RUNNING, 0)
+  | (C_ok, TP_wait, TASK_STOPPED_BEFORE_START, 0)
+  | (C_ok, TP_run, RUNNING, 1)
+  | (C_ok, TP_fin, TASK_COMPLETED_NORMALLY, 1)
+  | (C_ok, TP_fin, EXCEPTION_WHILE_RUNNING_TASK, 1)
+  | (C_ok, TP_done, TASK_STOPPED_BEFORE_START, 0)
+  | (C_ok, TP_done, TASK_COMPLETED_NORMALLY, 1)
+  | (C_ok, TP_done, EXCEPTION_WHILE_RUNNING_TASK, 1) => true
+  | _ => false
   end.
+Definition shape_ok (s : st V) : bool := shape_okb (shape_of s).
 
 Record Inv (tr : list ev) (s : st V) : Prop := mkInv {
   i_shape : shape_ok s = true;
@@ -61,7 +87,13 @@ Record Inv (tr : list ev) (s : st V) : Prop := mkInv {
   i_stopped : st_stopped (state s) = true -> existsb (on_lab l_stop) tr = true;
   i_slot : slot s = last_opt (posts_since tr);
   i_joined : joined s = existsb (on_lab l_join) tr;
-  i_joined_done : joined s = true -> thread_done s = true
+  i_joined_done : joined s = true -> thread_done s = true;
+  i_ctor_ok : existsb is_ctor_ok tr = c_ok (ctor s);
+  i_ctor_fail : existsb is_ctor_fail tr = c_failed (ctor s);
+  i_initfail : existsb (on_lab l_initfail) tr = st_excinit (state s);
+  i_initdone : existsb (on_lab l_initdone) tr = negb (st_preinit (state s));
+  i_stop_notready : existsb (on_lab l_stop) tr = true -> st_ready (state s) = false;
+  i_stop_ctor : existsb (on_lab l_stop) tr = true -> c_ok (ctor s) = true
 }.
 
 Lemma inv_init v0 : Inv [] (init v0).
@@ -75,21 +107,23 @@ Proof. unfold last_opt. rewrite fold_left_app. reflexivity. Qed.
 
 Ltac snoc_norm :=
   repeat (rewrite existsb_app || rewrite cnt_app || rewrite posts_since_snoc);
-  cbn [existsb cnt filter length on_lab fst snd is_succ_start l_start l_stop l_join l_begin l_exit
-       l_finexc l_finnorm l_fin since_step orb].
+  cbn [existsb cnt filter length on_lab fst snd is_succ_start is_ctor_ok is_ctor_fail l_start l_stop l_join
+       l_begin l_exit l_initfail l_initdone l_finexc l_finnorm l_fin since_step orb].
+
+Ltac red_step H :=
+  cbn [step step_ext step_int pc state run_count stop_flag slot cur joined ctor thread_done
+       set_state set_pc set_ctor is_running_state] in H.
 
 Lemma inv_step tr s l s' o : Inv tr s -> step s l = Some (s', o) -> Inv (tr ++ [(l, o)]) s'.
 Proof.
-  intros [Hsh Hst Hns Hbg Hex Hfe Hfn Hnf Hfl Hsp Hsl Hjn Hjd] Hstep.
-  destruct s as [x p n f sl c j].
-  unfold shape_ok in Hsh; cbn [pc state run_count stop_flag slot cur joined thread_done] in *.
-  destruct l as [e | i]; [destruct e | destruct i];
-    cbn [step step_ext step_int pc state run_count stop_flag slot cur joined thread_done
-         set_state set_pc is_running_state] in Hstep;
-    destruct p, x; try discriminate Hsh; try discriminate Hstep;
+  intros [Hsh Hst Hns Hbg Hex Hfe Hfn Hnf Hfl Hsp Hsl Hjn Hjd Hco Hcf Hif Hid Hnr Hsc] Hstep.
+  destruct s as [x p n f sl c j ct].
+  unfold shape_ok, shape_of, shape_okb in Hsh;
+    cbn [pc state run_count stop_flag slot cur joined ctor thread_done] in *.
+  destruct ct, p, x; try discriminate Hsh;
     destruct n as [|[|n]]; try discriminate Hsh;
-    cbn [step step_ext step_int pc state run_count stop_flag slot cur joined thread_done
-         set_state set_pc is_running_state] in Hstep; try discriminate Hstep;
+    (destruct l as [e | i]; [destruct e | destruct i]);
+    red_step Hstep; try discriminate Hstep;
     try (lazymatch type of Hstep with
          | Some _ = Some _ => idtac
          | (if ?b then _ else _) = _ => destruct b; try discriminate Hstep
@@ -97,19 +131,22 @@ Proof.
          end);
     inversion Hstep; subst; clear Hstep;
     (constructor;
-     cbn [pc state run_count stop_flag slot cur joined thread_done shape_ok st_started st_exc
-          st_norm st_stopped orb] in *;
+     unfold shape_ok, shape_of, shape_okb;
+     cbn [pc state run_count stop_flag slot cur joined ctor thread_done st_started st_exc
+          st_norm st_stopped st_ready st_excinit st_preinit c_ok c_failed orb negb] in *;
      snoc_norm;
-     rewrite ?Hst, ?Hns, ?Hbg, ?Hex, ?Hfe, ?Hfn, ?Hnf, ?orb_false_r, ?orb_true_r, ?Nat.add_0_r;
+     rewrite ?Hst, ?Hns, ?Hbg, ?Hex, ?Hfe, ?Hfn, ?Hnf, ?Hco, ?Hcf, ?Hif, ?Hid,
+             ?orb_false_r, ?orb_true_r, ?Nat.add_0_r;
      try reflexivity; try discriminate; try assumption;
      try (intro; discriminate);
      try (intros Hq; first [rewrite (Hfl Hq) | rewrite (Hsp Hq)]; reflexivity);
      try (rewrite <- Hjn; rewrite ?orb_false_r; reflexivity);
      try (rewrite last_opt_snoc; reflexivity);
      try (intros _; reflexivity);
+     try (intros Hq; apply Hnr; exact Hq);
+     try (intros Hq; apply Hsc in Hq; first [discriminate Hq | exact Hq]);
      auto).
 Qed.
-
 
 (* ---- exec: snoc, labels, invariant on every reachable state --------------------------------- *)
 Lemma exec_app (s : st V) l1 l2 :
@@ -231,6 +268,31 @@ Definition finished (ls : list lab) : Prop :=
 Definition final_state (x : tstate) : Prop :=
   x = TASK_COMPLETED_NORMALLY \/ x = EXCEPTION_WHILE_RUNNING_TASK \/ x = TASK_STOPPED_BEFORE_START.
 
+Lemma ctor_ok_iff (tr : list ev) : existsb is_ctor_ok tr = true <-> In (Ext Ctor, ONone) tr.
+Proof.
+  rewrite existsb_exists. split.
+  - intros [[l o] [Hin Hp]]. destruct l as [[]|]; try discriminate; destruct o; try discriminate. exact Hin.
+  - intros Hin. eexists; split; [exact Hin|reflexivity].
+Qed.
+Lemma ctor_fail_iff (tr : list ev) : existsb is_ctor_fail tr = true <-> In (Ext Ctor, OInitError) tr.
+Proof.
+  rewrite existsb_exists. split.
+  - intros [[l o] [Hin Hp]]. destruct l as [[]|]; try discriminate; destruct o; try discriminate. exact Hin.
+  - intros Hin. eexists; split; [exact Hin|reflexivity].
+Qed.
+Lemma initfail_iff (tr : list ev) : existsb (on_lab l_initfail) tr = true <-> In (Int TInitFail) (map fst tr).
+Proof.
+  rewrite on_lab_iff. split.
+  - intros [l [Hin Hp]]. destruct l as [|[]]; try discriminate. exact Hin.
+  - intros Hin. eexists; split; [exact Hin|reflexivity].
+Qed.
+Lemma initdone_iff (tr : list ev) : existsb (on_lab l_initdone) tr = true <-> In (Int TInitDone) (map fst tr).
+Proof.
+  rewrite on_lab_iff. split.
+  - intros [l [Hin Hp]]. destruct l as [|[]]; try discriminate. exact Hin.
+  - intros Hin. eexists; split; [exact Hin|reflexivity].
+Qed.
+
 Lemma facts (tr : list ev) (s : st V) (ls : list lab) :
   Inv tr s -> map fst tr = ls ->
   (In (Ext Start, ONone) tr <-> st_started (state s) = true) /\
@@ -239,9 +301,14 @@ Lemma facts (tr : list ev) (s : st V) (ls : list lab) :
   (finished ls <-> st_exc (state s) || st_norm (state s) = true) /\
   (stop_flag s = true -> In (Ext Stop) ls) /\
   (st_stopped (state s) = true -> In (Ext Stop) ls) /\
-  (In (Ext Join) ls <-> joined s = true).
+  (In (Ext Join) ls <-> joined s = true) /\
+  (In (Ext Ctor, ONone) tr <-> c_ok (ctor s) = true) /\
+  (In (Ext Ctor, OInitError) tr <-> c_failed (ctor s) = true) /\
+  (In (Int TInitFail) ls <-> st_excinit (state s) = true) /\
+  (In (Int TInitDone) ls <-> st_preinit (state s) = false) /\
+  (In (Ext Stop) ls -> st_ready (state s) = false).
 Proof.
-  intros [Hsh Hst _ _ Hex Hfe Hfn _ Hfl Hsp _ Hjn _] L. subst ls.
+  intros [Hsh Hst _ _ Hex Hfe Hfn _ Hfl Hsp _ Hjn _ Hco Hcf Hif Hid Hnr _] L. subst ls.
   split; [rewrite <- succ_start_iff, Hst; tauto|].
   split; [rewrite <- exit_iff, Hex; tauto|].
   split; [rewrite <- finexc_iff, Hfe; tauto|].
@@ -249,8 +316,20 @@ Proof.
   { unfold finished. rewrite <- Hfe, <- Hfn, orb_true_iff, finnorm_iff, finexc_iff. tauto. }
   split; [intros H; apply stop_iff, Hfl, H|].
   split; [intros H; apply stop_iff, Hsp, H|].
-  rewrite <- join_iff, Hjn; tauto.
+  split; [rewrite <- join_iff, Hjn; tauto|].
+  split; [rewrite <- ctor_ok_iff, Hco; tauto|].
+  split; [rewrite <- ctor_fail_iff, Hcf; tauto|].
+  split; [rewrite <- initfail_iff, Hif; tauto|].
+  split; [rewrite <- initdone_iff, Hid; destruct (st_preinit (state s)); cbn; split; congruence|].
+  intros H. apply Hnr, stop_iff, H.
 Qed.
+
+(* case analysis on the shape of a reachable state *)
+Ltac shapes Hsh s :=
+  unfold shape_ok, shape_of, shape_okb, thread_done in *;
+  destruct (ctor s), (pc s), (state s), (run_count s) as [|[|]]; try discriminate Hsh.
+
+Ltac fin := intuition (try discriminate; try congruence).
 
 (* ---- the properties --------------------------------------------------------------------------- *)
 Section Reach.
@@ -258,57 +337,58 @@ Variable v0 : V.
 Variables (ls : list lab) (s : st V) (tr : list ev).
 Hypothesis R : exec (init v0) ls = Some (s, tr).
 
+Lemma reach_shape : shape_okb (shape_of s) = true.
+Proof. exact (i_shape (reach_inv _ _ R)). Qed.
+
 Lemma run_once :
   run_count s <= 1 /\ run_count s = begins ls /\ cnt is_succ_start tr <= 1 /\
   (run_count s = 1 -> In (Ext Start, ONone) tr).
 Proof.
   pose proof (reach_inv _ _ R) as I. pose proof (exec_labels _ _ R) as L.
-  destruct I as [Hsh Hst Hns Hbg _ _ _ _ _ _ _ _ _].
-  rewrite cnt_begin_labels, L in Hbg.
+  pose proof (i_shape I) as Hsh. pose proof (i_started I) as Hst. pose proof (i_nstart I) as Hns.
+  pose proof (i_begin I) as Hbg. rewrite cnt_begin_labels, L in Hbg.
   repeat split.
-  - unfold shape_ok in Hsh. destruct (pc s), (state s), (run_count s) as [|[|]]; try discriminate; lia.
+  - shapes Hsh s; lia.
   - symmetry; exact Hbg.
   - rewrite Hns. destruct (st_started (state s)); lia.
   - intros H1. apply succ_start_iff. rewrite Hst.
-    unfold shape_ok in Hsh. rewrite H1 in Hsh. destruct (pc s), (state s); try discriminate; reflexivity.
+    unfold shape_ok, shape_of, shape_okb in Hsh. rewrite H1 in Hsh.
+    destruct (ctor s), (pc s), (state s); try discriminate; reflexivity.
 Qed.
 
 Lemma run_only_after_start :
   step s (Int TBeginRun) <> None -> In (Ext Start, ONone) tr /\ run_count s = 0.
 Proof.
-  pose proof (reach_inv _ _ R) as I. destruct I as [Hsh Hst _ _ _ _ _ _ _ _ _ _ _].
-  intros Hen. unfold step, step_int in Hen. unfold shape_ok in Hsh.
-  destruct (pc s), (state s), (run_count s) as [|[|]]; try discriminate; try congruence;
-    (split; [apply succ_start_iff; rewrite Hst; reflexivity | reflexivity]).
+  pose proof (reach_inv _ _ R) as I. pose proof (i_shape I) as Hsh. pose proof (i_started I) as Hst.
+  intros Hen. unfold step, step_int in Hen.
+  rewrite <- succ_start_iff, Hst. shapes Hsh s; try congruence; split; reflexivity.
 Qed.
 
 Lemma second_start_refused :
   In (Ext Start, ONone) tr -> step s (Ext Start) = Some (s, OUsageError).
 Proof.
-  pose proof (reach_inv _ _ R) as I. destruct I as [Hsh Hst _ _ _ _ _ _ _ _ _ _ _].
+  pose proof (reach_inv _ _ R) as I. pose proof (i_shape I) as Hsh. pose proof (i_started I) as Hst.
   intros Hin. apply succ_start_iff in Hin. rewrite Hst in Hin.
-  unfold step, step_ext. unfold shape_ok in Hsh.
-  destruct (pc s), (state s); try discriminate; reflexivity.
+  unfold step, step_ext. shapes Hsh s; try discriminate Hin; reflexivity.
 Qed.
 
 Lemma join_spec :
-  (step s (Ext Join) <> None <-> In (Int TExit) ls) /\
+  (step s (Ext Join) <> None <-> In (Ext Ctor, ONone) tr /\ In (Int TExit) ls) /\
   forall s' o, step s (Ext Join) = Some (s', o) ->
     In (Int TExit) ls /\
     (finished ls \/ (run_count s = 0 /\ In (Ext Stop) ls /\ ~ In (Ext Start, ONone) tr)) /\
     (o = OTaskRunError <-> In (Int TFinishExc) ls) /\
     (o = ONone <-> ~ In (Int TFinishExc) ls) /\
     final_state (state s) /\
-    s' = mk (state s) (pc s) (run_count s) (stop_flag s) (slot s) (cur s) true.
+    s' = mk (state s) (pc s) (run_count s) (stop_flag s) (slot s) (cur s) true (ctor s).
 Proof.
   pose proof (reach_inv _ _ R) as I. pose proof (exec_labels _ _ R) as L.
-  destruct (facts I L) as [F1 [F2 [F3 [F4 [F5 [F6 F7]]]]]].
-  destruct I as [Hsh _ _ _ _ _ _ _ _ _ _ _ _].
-  unfold step, step_ext, final_state, shape_ok, thread_done in *.
-  destruct (pc s), (state s), (run_count s) as [|[|]]; try discriminate Hsh; cbn in *;
-    (split; [intuition (try discriminate; try congruence)|]);
-    intros s' o H; try discriminate H; inversion H; subst;
-    intuition (try discriminate; try congruence).
+  destruct (facts I L) as [F1 [F2 [F3 [F4 [F5 [F6 [F7 [F8 [F9 [F10 [F11 F12]]]]]]]]]]].
+  pose proof (i_shape I) as Hsh.
+  unfold step, step_ext, final_state in *.
+  shapes Hsh s; cbn in *;
+    (split; [fin|]);
+    intros s' o H; try discriminate H; inversion H; subst; fin.
 Qed.
 
 Lemma is_running_spec :
@@ -318,12 +398,11 @@ Lemma is_running_spec :
       (b = true <-> In (Ext Start, ONone) tr /\ ~ finished ls).
 Proof.
   pose proof (reach_inv _ _ R) as I. pose proof (exec_labels _ _ R) as L.
-  destruct (facts I L) as [F1 [F2 [F3 [F4 [F5 [F6 F7]]]]]].
-  destruct I as [Hsh _ _ _ _ _ _ _ _ _ _ _ _].
-  intros s' o H. unfold step, step_ext, shape_ok in *.
-  destruct (pc s), (state s); try discriminate Hsh; try discriminate H; inversion H; subst;
-    (split; [reflexivity|]); eexists; (split; [reflexivity|]); cbn in *;
-    intuition (try discriminate; try congruence).
+  destruct (facts I L) as [F1 [F2 [F3 [F4 [F5 [F6 [F7 [F8 [F9 [F10 [F11 F12]]]]]]]]]]].
+  pose proof (i_shape I) as Hsh.
+  intros s' o H. unfold step, step_ext in *.
+  shapes Hsh s; try discriminate H; inversion H; subst;
+    (split; [reflexivity|]); eexists; (split; [reflexivity|]); cbn in *; fin.
 Qed.
 
 Lemma settings_spec :
@@ -335,7 +414,7 @@ Lemma settings_spec :
        cur s' = last (posts_since tr) (cur s) /\ slot s' = None /\
        state s' = state s /\ pc s' = pc s /\ run_count s' = run_count s).
 Proof.
-  pose proof (reach_inv _ _ R) as I. destruct I as [_ _ _ _ _ _ _ _ _ _ Hsl _ _].
+  pose proof (reach_inv _ _ R) as I. pose proof (i_slot I) as Hsl.
   intros s' o H. split; [exact Hsl|].
   unfold step, step_int in H. destruct (pc s); try discriminate H.
   rewrite Hsl in H.
@@ -349,8 +428,8 @@ Lemma pending_spec :
   forall s' o, step s (Ext GetPending) = Some (s', o) ->
     s' = s /\ o = OOpt (last_opt (posts_since tr)).
 Proof.
-  pose proof (reach_inv _ _ R) as I. destruct I as [_ _ _ _ _ _ _ _ _ _ Hsl _ _].
-  intros s' o H. unfold step, step_ext in H. destruct (pc s); try discriminate H;
+  pose proof (reach_inv _ _ R) as I. pose proof (i_slot I) as Hsl.
+  intros s' o H. unfold step, step_ext in H. destruct (ctor s); try discriminate H;
     inversion H; subst; rewrite <- Hsl; auto.
 Qed.
 
@@ -359,7 +438,7 @@ Lemma poll_stop_spec :
     s' = s /\ o = OBool (stop_flag s) /\ (stop_flag s = true -> In (Ext Stop) ls).
 Proof.
   pose proof (reach_inv _ _ R) as I. pose proof (exec_labels _ _ R) as L.
-  destruct I as [_ _ _ _ _ _ _ _ Hfl _ _ _ _].
+  pose proof (i_flag I) as Hfl.
   intros s' o H. unfold step, step_int in H. destruct (pc s); try discriminate H.
   inversion H; subst s' o. repeat split. intros Hf. rewrite <- L.
   apply stop_iff. apply Hfl. exact Hf.
@@ -369,14 +448,195 @@ Lemma release_spec :
   step s (Ext Release) <> None -> In (Ext Join) ls /\ In (Int TExit) ls.
 Proof.
   pose proof (reach_inv _ _ R) as I. pose proof (exec_labels _ _ R) as L.
-  destruct I as [_ _ _ _ Hex _ _ _ _ _ _ Hjn Hjd].
+  pose proof (i_exit I) as Hex. pose proof (i_joined I) as Hjn. pose proof (i_joined_done I) as Hjd.
   intros H. unfold step, step_ext in H.
-  assert (J : joined s = true). { destruct (pc s), (joined s); congruence. }
+  assert (J : joined s = true). { destruct (ctor s), (joined s); congruence. }
   rewrite <- L. split; [apply join_iff; rewrite <- Hjn; exact J|].
   apply exit_iff. rewrite Hex. apply Hjd. exact J.
 Qed.
 
+(* ---- the constructor: make_task returns a proxy, or raises QMI_TaskInitException ---------------- *)
+Lemma ctor_spec :
+  forall s' o, step s (Ext Ctor) = Some (s', o) ->
+    ~ In (Ext Ctor, ONone) tr /\ ~ In (Ext Ctor, OInitError) tr /\
+    (o = ONone \/ o = OInitError) /\
+    (o = ONone <-> In (Int TInitDone) ls) /\
+    (o = OInitError <-> In (Int TInitFail) ls) /\
+    (o = OInitError -> In (Int TExit) ls /\ run_count s' = 0 /\ forall l, step s' l = None) /\
+    (o = ONone -> state s' = READY_TO_RUN /\ run_count s' = 0 /\ thread_done s' = false).
+Proof.
+  pose proof (reach_inv _ _ R) as I. pose proof (exec_labels _ _ R) as L.
+  destruct (facts I L) as [F1 [F2 [F3 [F4 [F5 [F6 [F7 [F8 [F9 [F10 [F11 F12]]]]]]]]]]].
+  pose proof (i_shape I) as Hsh.
+  intros s' o H. unfold step, step_ext in H.
+  destruct s as [x p n f sl c j ct]. cbn [ctor pc state run_count thread_done] in *.
+  unfold shape_ok, shape_of, shape_okb, thread_done in *. cbn [ctor pc state run_count] in *.
+  destruct ct, p, x, n as [|[|]]; try discriminate Hsh; try discriminate H; cbn in *;
+    inversion H; subst; cbn;
+    (split; [fin|]); (split; [fin|]); (split; [fin|]); (split; [fin|]); (split; [fin|]);
+    (split; [|fin]);
+    intros Hq; try discriminate Hq;
+    (split; [fin|]); (split; [reflexivity|]);
+    intros [[]|[]]; reflexivity.
+Qed.
+
+(* after a failed construction nothing is left: no proxy operation, no thread step is ever enabled *)
+Lemma init_failure_terminal :
+  In (Ext Ctor, OInitError) tr ->
+  (forall l, step s l = None) /\ run_count s = 0 /\ thread_done s = true /\
+  In (Int TInitFail) ls /\ In (Int TExit) ls /\ ~ In (Int TInitDone) ls /\ ~ In (Int TBeginRun) ls.
+Proof.
+  pose proof (reach_inv _ _ R) as I. pose proof (exec_labels _ _ R) as L.
+  destruct (facts I L) as [F1 [F2 [F3 [F4 [F5 [F6 [F7 [F8 [F9 [F10 [F11 F12]]]]]]]]]]].
+  pose proof (i_shape I) as Hsh. pose proof (i_begin I) as Hbg.
+  intros Hc. apply F9 in Hc.
+  assert (Hb : ~ In (Int TBeginRun) ls).
+  { rewrite <- L. intros Hb. apply begin_iff in Hb. rewrite Hbg in Hb.
+    shapes Hsh s; try discriminate Hc; congruence. }
+  destruct s as [x p n f sl c j ct]. cbn [ctor pc state run_count thread_done] in *.
+  unfold shape_ok, shape_of, shape_okb, thread_done in *. cbn [ctor pc state run_count] in *.
+  destruct ct, p, x, n as [|[|]]; try discriminate Hsh; try discriminate Hc; cbn in *.
+  split; [intros [[]|[]]; reflexivity|]. fin.
+Qed.
+
+(* a task whose constructor raised is never run, whatever happens *)
+Lemma init_failure_never_runs :
+  In (Int TInitFail) ls ->
+  run_count s = 0 /\ state s = EXCEPTION_WHILE_INSTANTIATING_TASK /\
+  (forall e, e <> Ctor -> step s (Ext e) = None) /\ ~ In (Ext Ctor, ONone) tr.
+Proof.
+  pose proof (reach_inv _ _ R) as I. pose proof (exec_labels _ _ R) as L.
+  destruct (facts I L) as [F1 [F2 [F3 [F4 [F5 [F6 [F7 [F8 [F9 [F10 [F11 F12]]]]]]]]]]].
+  pose proof (i_shape I) as Hsh.
+  intros Hf. apply F10 in Hf. unfold step, step_ext.
+  shapes Hsh s; try discriminate Hf; cbn in *;
+    (split; [reflexivity|]); (split; [reflexivity|]);
+    (split; [intros [] He; try reflexivity; congruence | fin]).
+Qed.
+
+(* ---- no dead-lock after a stop; release of an unjoined task ------------------------------------- *)
+(* the steps of the task thread other than the body's own update/poll steps strictly decrease this *)
+Definition rank (p : tpc) : nat :=
+  match p with TP_init => 5 | TP_wait => 4 | TP_run => 3 | TP_fin => 1 | TP_done => 0 end.
+
+Lemma progress_after_stop :
+  In (Ext Stop) ls -> thread_done s = false -> exists i, step s (Int i) <> None.
+Proof.
+  pose proof (reach_inv _ _ R) as I. pose proof (exec_labels _ _ R) as L.
+  destruct (facts I L) as [F1 [F2 [F3 [F4 [F5 [F6 [F7 [F8 [F9 [F10 [F11 F12]]]]]]]]]]].
+  pose proof (i_shape I) as Hsh. pose proof (i_stop_ctor I) as Hsc.
+  intros Hs Hd. pose proof (F12 Hs) as Hr.
+  assert (Hc : c_ok (ctor s) = true). { apply Hsc, stop_iff. rewrite L. exact Hs. }
+  unfold step, step_int.
+  shapes Hsh s; try discriminate Hc; try discriminate Hr; try discriminate Hd.
+  - exists TBeginRun; discriminate.
+  - exists TExit; discriminate.
+  - exists TFinishOk; discriminate.
+  - exists TExit; discriminate.
+  - exists TExit; discriminate.
+Qed.
+
+(* what a task that honours the stop request does from each position *)
+Definition drain (s1 : st V) : list int :=
+  match pc s1, state s1 with
+  | TP_wait, RUNNING => [TBeginRun; TPollStop; TFinishStopExc; TExit]
+  | TP_wait, _ => [TExit]
+  | TP_run, _ => [TPollStop; TFinishStopExc; TExit]
+  | TP_fin, _ => [TExit]
+  | _, _ => []
+  end.
+
+Lemma release_unjoined :
+  In (Ext Ctor, ONone) tr ->
+  exists s1 s2 tr2 s3 o,
+    step s (Ext Stop) = Some (s1, ONone) /\
+    exec s1 (map Int (drain s1)) = Some (s2, tr2) /\
+    (forall x, In (Int TPollStop, x) tr2 -> x = OBool true) /\
+    step s2 (Ext Join) = Some (s3, o) /\
+    (o = OTaskRunError <-> In (Int TFinishExc) ls) /\
+    step s3 (Ext Release) = Some (s3, ONone).
+Proof.
+  pose proof (reach_inv _ _ R) as I. pose proof (exec_labels _ _ R) as L.
+  destruct (facts I L) as [F1 [F2 [F3 [F4 [F5 [F6 [F7 [F8 [F9 [F10 [F11 F12]]]]]]]]]]].
+  pose proof (i_shape I) as Hsh.
+  intros Hc. apply F8 in Hc.
+  destruct s as [x p n f sl c j ct]. cbn [ctor pc state run_count thread_done] in *.
+  unfold shape_ok, shape_of, shape_okb, thread_done in *. cbn [ctor pc state run_count] in *.
+  destruct ct, p, x, n as [|[|]]; try discriminate Hsh; try discriminate Hc; cbn in *;
+    do 5 eexists;
+    (split; [reflexivity|]); (split; [reflexivity|]);
+    (split; [intros y Hy; cbn in Hy; fin|]);
+    (split; [reflexivity|]); (split; [fin|reflexivity]).
+Qed.
+
 End Reach.
+
+Lemma rank_decreases (s : st V) i s' o :
+  step s (Int i) = Some (s', o) ->
+  ((i = TUpdate \/ i = TPollStop) /\ pc s' = pc s) \/ rank (pc s') < rank (pc s).
+Proof.
+  unfold step, step_int. destruct s as [x p n f sl c j ct]; cbn [pc state slot].
+  destruct i, p; try discriminate; try (destruct x; try discriminate); try (destruct sl);
+    intros H; inversion H; subst; cbn; auto; right; lia.
+Qed.
+
+Lemma rank_ext (s : st V) e s' o : step s (Ext e) = Some (s', o) -> pc s' = pc s.
+Proof.
+  unfold step, step_ext. destruct s as [x p n f sl c j ct]; cbn [pc state slot ctor joined thread_done].
+  destruct e, ct; try discriminate; try (destruct x; try discriminate);
+    try (destruct p; try discriminate); try (destruct j; try discriminate);
+    intros H; inversion H; subst; reflexivity.
+Qed.
+
+(* every one of the 14 shapes is reached *)
+Definition all_shapes : list shape :=
+  [(C_running, TP_init, INITIAL, 0); (C_running, TP_wait, READY_TO_RUN, 0);
+   (C_running, TP_fin, EXCEPTION_WHILE_INSTANTIATING_TASK, 0);
+   (C_running, TP_done, EXCEPTION_WHILE_INSTANTIATING_TASK, 0);
+   (C_failed, TP_done, EXCEPTION_WHILE_INSTANTIATING_TASK, 0);
+   (C_ok, TP_wait, READY_TO_RUN, 0); (C_ok, TP_wait, RUNNING, 0);
+   (C_ok, TP_wait, TASK_STOPPED_BEFORE_START, 0); (C_ok, TP_run, RUNNING, 1);
+   (C_ok, TP_fin, TASK_COMPLETED_NORMALLY, 1); (C_ok, TP_fin, EXCEPTION_WHILE_RUNNING_TASK, 1);
+   (C_ok, TP_done, TASK_STOPPED_BEFORE_START, 0); (C_ok, TP_done, TASK_COMPLETED_NORMALLY, 1);
+   (C_ok, TP_done, EXCEPTION_WHILE_RUNNING_TASK, 1)].
+
+Definition witness (sh : shape) : list lab :=
+  match sh with
+  | (C_running, TP_init, _, _) => []
+  | (C_running, TP_wait, _, _) => [Int TInitDone]
+  | (C_running, TP_fin, _, _) => [Int TInitFail]
+  | (C_running, TP_done, _, _) => [Int TInitFail; Int TExit]
+  | (C_failed, _, _, _) => [Int TInitFail; Int TExit; Ext Ctor]
+  | (C_ok, TP_wait, READY_TO_RUN, _) => [Int TInitDone; Ext Ctor]
+  | (C_ok, TP_wait, RUNNING, _) => [Int TInitDone; Ext Ctor; Ext Start]
+  | (C_ok, TP_wait, _, _) => [Int TInitDone; Ext Ctor; Ext Stop]
+  | (C_ok, TP_run, _, _) => [Int TInitDone; Ext Ctor; Ext Start; Int TBeginRun]
+  | (C_ok, TP_fin, TASK_COMPLETED_NORMALLY, _) => [Int TInitDone; Ext Ctor; Ext Start; Int TBeginRun; Int TFinishOk]
+  | (C_ok, TP_fin, _, _) => [Int TInitDone; Ext Ctor; Ext Start; Int TBeginRun; Int TFinishExc]
+  | (C_ok, TP_done, TASK_STOPPED_BEFORE_START, _) => [Int TInitDone; Ext Ctor; Ext Stop; Int TExit]
+  | (C_ok, TP_done, TASK_COMPLETED_NORMALLY, _) =>
+      [Int TInitDone; Ext Ctor; Ext Start; Int TBeginRun; Int TFinishStopExc; Int TExit]
+  | (C_ok, TP_done, _, _) => [Int TInitDone; Ext Ctor; Ext Start; Int TBeginRun; Int TFinishExc; Int TExit]
+  | _ => []
+  end.
+
+Lemma shapes_all_reachable (v0 : V) :
+  forall sh, In sh all_shapes ->
+    exists s tr, exec (init v0) (witness sh) = Some (s, tr) /\ shape_of s = sh.
+Proof.
+  intros sh Hin. unfold all_shapes in Hin.
+  repeat (destruct Hin as [E|Hin]; [subst sh; cbn; eexists; eexists; split; reflexivity|]).
+  destruct Hin.
+Qed.
+
+Lemma shapes_exact (sh : shape) : shape_okb sh = true <-> In sh all_shapes.
+Proof.
+  split.
+  - destruct sh as [[[c p] x] n]. unfold shape_okb.
+    destruct c, p, x, n as [|[|]]; try discriminate; intros _; cbn; tauto.
+  - intros Hin. unfold all_shapes in Hin.
+    repeat (destruct Hin as [E|Hin]; [subst sh; reflexivity|]). destruct Hin.
+Qed.
 
 (* ---- continuation lemmas (a state, then any further interleaving) ------------------------- *)
 Definition pc_idle (p : tpc) : bool := match p with TP_wait | TP_done => true | _ => false end.
@@ -397,9 +657,9 @@ Proof.
                   pc_idle (pc s1) = true /\
                   (l = Ext Start -> o1 = OUsageError) /\
                   (l = Ext Join -> o1 = ONone)).
-    { destruct s as [x p n f sl c j]. cbn [state run_count pc] in Hs, Hr, Hp. subst x n.
-      destruct l as [e|i]; [destruct e|destruct i]; cbn in Es; destruct p; try discriminate Hp;
-        try discriminate Es;
+    { destruct s as [x p n f sl c j ct]. cbn [state run_count pc] in Hs, Hr, Hp. subst x n.
+      destruct l as [e|i]; [destruct e|destruct i]; destruct ct, p; try discriminate Hp;
+        cbn in Es; try discriminate Es;
         try (destruct j; try discriminate Es); try (destruct sl);
         inversion Es; subst; cbn; repeat split; try reflexivity; intros; try discriminate;
         try congruence. }
@@ -420,7 +680,7 @@ Proof.
   intros R1 Hns H2.
   assert (R12 : exec (init v0) (l1 ++ Ext Stop :: l2) = Some (s2, tr1 ++ tr2)).
   { rewrite exec_app, R1, H2. reflexivity. }
-  pose proof (reach_inv _ _ R1) as I. destruct I as [Hsh Hst _ _ _ _ _ _ _ _ _ _ _].
+  pose proof (reach_inv _ _ R1) as I. pose proof (i_shape I) as Hsh. pose proof (i_started I) as Hst.
   rewrite <- succ_start_iff, Hst in Hns.
   cbn [exec] in H2.
   destruct (step s1 (Ext Stop)) as [[s1' o1]|] eqn:Es; [|discriminate].
@@ -428,9 +688,9 @@ Proof.
   inversion H2; subst.
   assert (A : state s1' = TASK_STOPPED_BEFORE_START /\ run_count s1' = 0 /\
               pc_idle (pc s1') = true /\ o1 = ONone).
-  { unfold step, step_ext in Es. unfold shape_ok in Hsh.
-    destruct s1 as [x p n f sl c j]; cbn [pc state run_count] in *.
-    destruct p, x, n as [|[|]]; try discriminate Hsh; try discriminate Es;
+  { unfold step, step_ext in Es. unfold shape_ok, shape_of, shape_okb in Hsh.
+    destruct s1 as [x p n f sl c j ct]; cbn [pc state run_count ctor] in *.
+    destruct ct, p, x, n as [|[|]]; try discriminate Hsh; try discriminate Es;
       try (exfalso; apply Hns; reflexivity); inversion Es; subst; cbn; auto. }
   destruct A as [A [B [P C]]].
   destruct (@stopped_absorbing _ _ _ _ A B P E) as [A2 [B2 [C2 D2]]].
@@ -450,10 +710,12 @@ Proof.
     destruct (exec s1 r) as [[s3 tr3]|] eqn:E; [|discriminate].
     inversion H; subst.
     assert (A : stop_flag s1 = true /\ (l = (Int TPollStop : lab) -> o1 = OBool true)).
-    { destruct s as [x p n f sl c j]. cbn [stop_flag] in Hf. subst f.
-      destruct l as [e|i]; [destruct e|destruct i]; cbn in Es; destruct p; try discriminate Es;
-        try (destruct x; try discriminate Es); try (destruct j; try discriminate Es); try (destruct sl);
-        inversion Es; subst; cbn; split; try reflexivity; intros; try discriminate; try congruence. }
+    { clear IH E H. unfold step, step_ext, step_int, thread_done in Es.
+      repeat match type of Es with
+             | context [match ?x with _ => _ end] => destruct x eqn:?; try discriminate Es
+             end;
+        inversion Es; subst; cbn [stop_flag set_state set_pc set_ctor];
+        (split; [first [exact Hf | reflexivity] | intros Hq; try discriminate Hq; rewrite Hf; reflexivity]). }
     destruct A as [A B]. destruct (IH _ _ _ A E) as [A2 B2]. split; [auto|].
     intros o [Hq|Hin]; [inversion Hq; subst; apply B; reflexivity | auto].
 Qed.
@@ -465,16 +727,16 @@ Lemma stop_after_begin (v0 : V) (l1 : list lab) (s1 : st V) (tr1 : list ev) (l2 
 Proof.
   intros R1 Hb H2.
   pose proof (reach_inv _ _ R1) as I. pose proof (exec_labels _ _ R1) as L.
-  destruct I as [Hsh _ _ Hbg _ _ _ _ _ _ _ _ _].
+  pose proof (i_shape I) as Hsh. pose proof (i_begin I) as Hbg.
   rewrite <- L in Hb. apply begin_iff in Hb. rewrite Hbg in Hb.
   cbn [exec] in H2.
   destruct (step s1 (Ext Stop)) as [[s1' o1]|] eqn:Es; [|discriminate].
   destruct (exec s1' l2) as [[s3 tr3]|] eqn:E; [|discriminate].
   inversion H2; subst.
   assert (A : stop_flag s1' = true).
-  { unfold step, step_ext in Es. unfold shape_ok in Hsh.
-    destruct s1 as [x p n f sl c j]; cbn [pc state run_count] in *.
-    destruct p, x, n as [|[|]]; try discriminate Hsh; try discriminate Es; try congruence;
+  { unfold step, step_ext in Es. unfold shape_ok, shape_of, shape_okb in Hsh.
+    destruct s1 as [x p n f sl c j ct]; cbn [pc state run_count ctor] in *.
+    destruct ct, p, x, n as [|[|]]; try discriminate Hsh; try discriminate Es; try congruence;
       inversion Es; subst; reflexivity. }
   destruct (@stop_flag_sticky _ _ _ _ A E) as [A2 B2]. split; [auto|].
   intros o [Hq|Hin]; [inversion Hq | auto].
@@ -505,5 +767,17 @@ Proof.
     destruct l as [[]|[]]; try discriminate; reflexivity. }
   rewrite E. reflexivity.
 Qed.
+
+Lemma reachable_shapes (v0 : V) (ls : list lab) (s : st V) (tr : list ev) :
+  exec (init v0) ls = Some (s, tr) -> In (shape_of s) all_shapes.
+Proof. intros R. apply shapes_exact. exact (@reach_shape v0 ls s tr R). Qed.
+
+Lemma rank_step (s : st V) (l : lab) s' o :
+  step s l = Some (s', o) ->
+  match l with
+  | Ext _ => pc s' = pc s
+  | Int i => ((i = TUpdate \/ i = TPollStop) /\ pc s' = pc s) \/ rank (pc s') < rank (pc s)
+  end.
+Proof. destruct l as [e|i]; intros H; [exact (rank_ext _ _ H) | exact (rank_decreases _ _ H)]. Qed.
 
 End Proofs.
